@@ -43,7 +43,7 @@ def _as_block(body):
     return body if body.startswith('{') else '{ ' + body + ' }'
 
 
-def r1_r2_map_collect(min_count=1, names=None):
+def r1_r2_map_collect(min_count=1, names=None, with_decreases=False):
     """R1: E.into_iter().map(|p| BODY).collect()        -> explicit loop over reversed vector with pop()
        R2: E.into_iter().rev().map(|p| BODY).collect()  -> same without the reverse()
     The n-th rewritten site uses variables r<n>_in / r<n>_out."""
@@ -78,7 +78,7 @@ def r1_r2_map_collect(min_count=1, names=None):
             new = ('{\n\t\t\tlet mut %s_in = %s;\n' % (tag, re.sub(r'\s+', '', recv))
                    + ('' if rev else '\t\t\t%s_in.reverse();\n' % tag)
                    + '\t\t\tlet mut %s_out = Vec::new();\n' % tag
-                   + '\t\t\twhile let Some(%s) = %s_in.pop()\n\t\t\t{\n' % (param, tag)
+                   + '\t\t\twhile let Some(%s) = %s_in.pop()\n%s\t\t\t{\n' % (param, tag, ('\t\t\t\tdecreases %s_in@.len(),\n' % tag) if with_decreases else '')
                    + '\t\t\t\tlet %s_item = %s;\n' % (tag, _as_block(body))
                    + '\t\t\t\t%s_out.push(%s_item);\n\t\t\t}\n\t\t\t%s_out\n\t\t}' % (tag, tag, tag))
             text = text[:toks[rs].start] + new + text[toks[mclose + 4].end:]
